@@ -37,6 +37,7 @@ package build
 //@   opt nopanic=off
 //@   opt inline=off
 //@   callsite (PathHasher).Hash by_content [C01]: !arg_timestamp
+//@   callsite (Writer).Write never_in_map_iteration_order [C07]: !inmaprange()
 //@ assume func secretHash
 //@   pure
 //
@@ -203,6 +204,8 @@ package build
 //@      called("buildFilegroup") || (called("moveOutputs") && moveerr == nil)
 //@   callsite writeRuleHash only_after_artifacts_were_retrieved [C32]: called("retrieveArtifacts") && retrieved
 //@   callsite storeInCache only_verified_outputs [C35 C32]: called("calculateAndCheckRuleHash") && hasherr == nil
+//@   callsite retrieveFromCache keyed_by_the_target_hash [C02]: called("mustShortTargetHash") && arg_cacheKey == cacheKey && arg_target == target
+//@   callsite storeInCache keyed_by_a_target_hash [C02]: called("mustShortTargetHash") && arg_target == target && (arg_key == cacheKey || arg_key == newCacheKey)
 
 // StoreTargetMetadata: the old metadata file is REMOVED (not truncated in place) before the new one is
 // created, so the rule-hash record attached to the old inode can never vouch for new or partial contents.
@@ -249,8 +252,10 @@ package build
 //@   modifies nothing
 //@   opt nopanic=off
 //@   callsite (Writer).Write collect W string: string(arg_p)
+//@   callsite (Writer).Write never_in_map_iteration_order [C07]: !inmaprange()
 //@   invariant "range eps" keys_are_the_domain: len(keys) == idx && (forall k string :: visited(k) ==> (exists j int :: 0 <= j && j < idx && keys[j] == k)) && \
 //@      (forall j int :: 0 <= j && j < idx ==> in(keys[j], eps))
+//@   invariant "range keys" sorted_keys [C07]: forall j int :: 0 < j && j < len(keys) ==> keys[j-1] <= keys[j]
 //@   invariant "range keys" written_so_far: forall j int :: 0 <= j && j < idx ==> collected(W, keys[j] + "=" + eps[keys[j]])
 //@   ensures every_entry_is_hashed [C08]: forall k string :: in(k, eps) ==> collected(W, k + "=" + eps[k])
 //
@@ -261,7 +266,12 @@ package build
 //@   opt precall=off
 //@   opt permutation=multiset
 //@   callsite (Writer).Write collect W string: string(arg_p)
+//@   callsite (Writer).Write never_in_map_iteration_order [C07]: !inmaprange()
+//@   callsite hashBool never_in_map_iteration_order [C07]: !inmaprange()
+//@   callsite hashOptionalBool never_in_map_iteration_order [C07]: !inmaprange()
+//@   callsite hashMap never_in_map_iteration_order [C07]: !inmaprange()
 //@   callsite hashMap collect HM map[string]string: arg_eps
+//@   invariant "range provideKeys" sorted_keys [C07]: forall j int :: 0 < j && j < len(provideKeys) ==> provideKeys[j-1] <= provideKeys[j]
 //@   invariant "range target.DeclaredDependencies()" deps: forall k int :: 0 <= k && k < idx ==> collected(W, target.DeclaredDependencies()[k].String())
 //@   invariant "range target.Hashes" hashes: forall k int :: 0 <= k && k < idx ==> collected(W, target.Hashes[k])
 //@   invariant "range target.AllSources()" srcs: forall k int :: 0 <= k && k < idx ==> collected(W, target.AllSources()[k].String())
@@ -288,3 +298,60 @@ package build
 //@   ensures command [C08]: collected(W, target.GetCommand(state))
 //@   ensures file_content [C08]: collected(W, target.FileContent)
 //@   ensures entry_points_and_env [C08]: collected(HM, target.EntryPoints) && collected(HM, target.Env)
+
+// ---------------------------------------------------------------------------------------------
+// Hashes do not depend on map iteration order (C07)
+//
+// Go randomises map iteration. Everything that is written to a hash inside ruleHash, hashMap and sourceHash is
+// written OUTSIDE any loop that ranges over a map (`inmaprange()` is false at every Write): map-valued
+// attributes (provides, entry points, env, named outputs) are first turned into a sorted key list
+// (hashMap: invariants above; DeclaredOutputNames / allBuildInputs in core). The rule hash is also memoised
+// per target only after it is complete (RuleHash).
+
+// ---------------------------------------------------------------------------------------------
+// Cache restores are keyed by, and verified against, the current definition and inputs (C02)
+//
+// The cache key is the (collapsed) target hash: the two rule hashes, the configuration hash and the source
+// hash, concatenated in that order — so a target whose definition, configuration or inputs differ asks the
+// cache under a different key. A restored artifact counts as a hit only after its output hash has been
+// checked against the declared hashes; on a verification failure the restored outputs are removed and the
+// restore is a miss.
+//@ func targetHash
+//@   requires state != nil && target != nil && state.PathHasher != nil
+//@   modifies nothing
+//@   opt precall=off
+//@   ensures every_ingredient_in_order [C02]: result1 == nil ==> \
+//@      len(result0) == len(RuleHash(state, target, false, false)) + len(RuleHash(state, target, false, true)) + len(state.Hashes.Config) + len(first(sourceHash(state, target))) && \
+//@      (forall i int :: 0 <= i && i < len(RuleHash(state, target, false, false)) ==> result0[i] == RuleHash(state, target, false, false)[i]) && \
+//@      (forall i int :: 0 <= i && i < len(state.Hashes.Config) ==> \
+//@         result0[len(RuleHash(state, target, false, false)) + len(RuleHash(state, target, false, true)) + i] == state.Hashes.Config[i]) && \
+//@      (forall i int :: 0 <= i && i < len(first(sourceHash(state, target))) ==> \
+//@         result0[len(RuleHash(state, target, false, false)) + len(RuleHash(state, target, false, true)) + len(state.Hashes.Config) + i] == first(sourceHash(state, target))[i])
+//@   ensures failure_is_reported [C02]: second(sourceHash(state, target)) != nil ==> result1 != nil
+//
+//@ assume func mustShortTargetHash
+//@   pure
+//@ assume func retrieveFromCache
+// RemoveOutputs removes every declared output of the target (ghost counter: one RemoveAll per output, each on
+// the output's path under the target's output directory) or reports an error.
+//@ func RemoveOutputs
+//@   requires target != nil
+//@   opt nopanic=off
+//@   callsite fs.RemoveAll track removed int: removed + 1
+//@   callsite fs.RemoveAll the_declared_output [C35 C02]: 0 <= idx && idx < len(target.Outputs()) && \
+//@      arg_path == filepath.Join(target.OutDir(), target.Outputs()[idx])
+//@   invariant "range target.Outputs()" one_per_output: removed == old(removed) + idx
+//@   ensures every_declared_output_is_removed [C35 C02]: result == nil ==> removed == old(removed) + len(target.Outputs())
+//@ assume func checkLicences
+//@   modifies nothing
+//@ func retrieveArtifacts
+//@   requires state != nil && target != nil && state.Config != nil
+//@   opt nopanic=off
+//@   opt inline=off
+//@   opt precall=off
+//@   callsite calculateAndCheckRuleHash trackresult verifyerr error: result1
+//@   callsite retrieveFromCache keyed_by_the_current_target_hash [C02]: arg_cacheKey == mustShortTargetHash(state, target) && arg_target == target
+//@   callsite (Cache).Retrieve keyed_by_the_current_target_hash [C02]: arg_key == cacheKey && arg_target == target
+//@   callsite RemoveOutputs only_after_a_failed_verification [C02 C35]: called("calculateAndCheckRuleHash") && verifyerr != nil && arg_target == target
+//@   ensures a_hit_was_verified [C02 C35]: result && called("retrieveFromCache") ==> called("calculateAndCheckRuleHash") && verifyerr == nil
+//@   ensures failed_verification_is_a_miss [C02 C35]: called("calculateAndCheckRuleHash") && verifyerr != nil ==> !result && called("RemoveOutputs")
